@@ -626,7 +626,7 @@ func execPlan(t *testing.T, pa any) (out core.Outcome) {
 			case sel && (f.link != want.Link || f.data != want.Data || (!f.link && f.exec != want.Exec)):
 				// only judged where the operation is meant to write the worktree
 				if name != "reset-mixed" {
-					out.Fail(fmt.Sprintf("C32|%s|selected-file-missing|%s", name, classFor(tp)), "after %s dirs=%v: %q is selected but its worktree content/mode is not the commit's (worktree link=%v exec=%v %q, commit c%d link=%v exec=%v %q)", name, dirs, tp, f.link, f.exec, f.data, ti, want.Link, want.Exec, want.Data)
+					out.Fail(fmt.Sprintf("C32|%s|selected-file-wrong-content|%s", name, classFor(tp)), "after %s dirs=%v: %q is selected but its worktree content/mode is not the commit's (worktree link=%v exec=%v %q, commit c%d link=%v exec=%v %q)", name, dirs, tp, f.link, f.exec, f.data, ti, want.Link, want.Exec, want.Data)
 				}
 			}
 			if out.Signature != "" {
